@@ -34,6 +34,7 @@ import (
 	"net/http/httptest"
 	"net/http/httputil"
 	"net/url"
+	"os"
 	"sort"
 	"strconv"
 	"strings"
@@ -411,15 +412,39 @@ func (t *toks) harCookies(key string, cs []har.Cookie) {
 	}
 }
 
-func (t *toks) harHeaders(key string, hs []har.Header) {
-	s := make([][2]string, len(hs))
-	for i, h := range hs {
-		s[i] = [2]string{h.Name, h.Value}
+// headerOrder canonicalises a header / query list (Go map iteration order) by
+// sorting on (name, value).  The permutation computed on the logged entry is
+// applied to the entry parsed back from JSON as well (JSON keeps list order),
+// so that position i of both lists is the same header.
+func headerOrder(hs []har.Header) []int {
+	idx := make([]int, len(hs))
+	for i := range idx {
+		idx[i] = i
 	}
-	sort.Slice(s, func(i, j int) bool { return s[i][0] < s[j][0] || (s[i][0] == s[j][0] && s[i][1] < s[j][1]) })
-	for _, h := range s {
-		t.add(key, t.b(h[0]), t.b(h[1]))
+	sort.SliceStable(idx, func(a, b int) bool {
+		x, y := hs[idx[a]], hs[idx[b]]
+		return x.Name < y.Name || (x.Name == y.Name && x.Value < y.Value)
+	})
+	return idx
+}
+
+func (t *toks) harHeaders(key string, hs []har.Header, order []int) {
+	if len(order) != len(hs) {
+		order = headerOrder(hs)
 	}
+	for _, k := range order {
+		t.add(key, t.b(hs[k].Name), t.b(hs[k].Value))
+	}
+}
+
+type orders struct{ h, q, p []int }
+
+func queryHeaders(qs []har.QueryString) []har.Header {
+	r := make([]har.Header, len(qs))
+	for i, q := range qs {
+		r[i] = har.Header{Name: q.Name, Value: q.Value}
+	}
+	return r
 }
 
 func (t *toks) b64(s string) {
@@ -466,26 +491,41 @@ func jstr(m map[string]interface{}, k string) string {
 	return s
 }
 
-func (t *toks) harRequest(p string, r *har.Request) {
+// formOrder canonicalises the parameter order of an urlencoded form (url.Values
+// is a map: the keys come in Go's map iteration order).  The same permutation
+// is applied to the entry parsed back from JSON, whose list order is the entry's.
+func formOrder(r *har.Request) []int {
+	if r.PostData == nil || r.PostData.MimeType != "application/x-www-form-urlencoded" {
+		return nil
+	}
+	ps := r.PostData.Params
+	idx := make([]int, len(ps))
+	for i := range idx {
+		idx[i] = i
+	}
+	sort.SliceStable(idx, func(i, j int) bool { return ps[idx[i]].Name < ps[idx[j]].Name })
+	return idx
+}
+
+func (t *toks) harRequest(p string, r *har.Request, o orders) {
+	order := o.p
 	t.add(p+"m", t.b(r.Method))
 	t.add(p+"u", t.b(r.URL))
 	t.add(p+"p", t.b(r.HTTPVersion))
 	t.add(p+"bs", strconv.FormatInt(r.BodySize, 10))
 	t.harCookies(p+"ck", r.Cookies)
-	t.harHeaders(p+"h", r.Headers)
-	qs := make([]har.Header, len(r.QueryString))
-	for i, q := range r.QueryString {
-		qs[i] = har.Header{Name: q.Name, Value: q.Value}
-	}
-	t.harHeaders(p+"q", qs)
+	t.harHeaders(p+"h", r.Headers, o.h)
+	t.harHeaders(p+"q", queryHeaders(r.QueryString), o.q)
 	if r.PostData == nil {
 		t.add(p+"pd", "none")
 	} else {
 		t.add(p+"pd", t.b(r.PostData.MimeType), t.b(r.PostData.Text))
-		ps := append([]har.Param(nil), r.PostData.Params...)
-		if r.PostData.MimeType == "application/x-www-form-urlencoded" {
-			// url.Values is a map: key order is Go's map iteration order; canonicalise
-			sort.SliceStable(ps, func(i, j int) bool { return ps[i].Name < ps[j].Name })
+		ps := r.PostData.Params
+		if len(order) == len(ps) {
+			ps = make([]har.Param, len(order))
+			for i, k := range order {
+				ps[i] = r.PostData.Params[k]
+			}
 		}
 		for _, q := range ps {
 			t.add(p+"pp", t.b(q.Name), t.b(q.Value), t.b(q.Filename), t.b(q.ContentType))
@@ -493,13 +533,13 @@ func (t *toks) harRequest(p string, r *har.Request) {
 	}
 }
 
-func (t *toks) harResponse(p string, r *har.Response) {
+func (t *toks) harResponse(p string, r *har.Response, order []int) {
 	t.add(p+"s", strconv.Itoa(r.Status))
 	t.add(p+"p", t.b(r.HTTPVersion))
 	t.add(p+"bs", strconv.FormatInt(r.BodySize, 10))
 	t.add(p+"rd", t.b(r.RedirectURL))
 	t.harCookies(p+"ck", r.Cookies)
-	t.harHeaders(p+"h", r.Headers)
+	t.harHeaders(p+"h", r.Headers, order)
 	if r.Content == nil {
 		t.add(p+"ct", "none")
 	} else {
@@ -573,7 +613,8 @@ func runReq(m *msgIn) (out []string) {
 	}
 	t.add("obs", "ok")
 	e := es[0].Request
-	t.harRequest("e", e)
+	order := orders{h: headerOrder(e.Headers), q: headerOrder(queryHeaders(e.QueryString)), p: formOrder(e)}
+	t.harRequest("e", e, order)
 	if e.PostData != nil && !utf8.ValidString(e.PostData.Text) {
 		t.b64(e.PostData.Text)
 	}
@@ -593,7 +634,7 @@ func runReq(m *msgIn) (out []string) {
 		return t.finish()
 	}
 	t.add("rt", "ok")
-	t.harRequest("r", back.Log.Entries[0].Request)
+	t.harRequest("r", back.Log.Entries[0].Request, order)
 	// re-marshal the parsed log, parse again: must be a fixed point
 	js2, err := json.Marshal(&back)
 	var back2 har.HAR
@@ -664,7 +705,8 @@ func runRes(m *msgIn) (out []string) {
 	}
 	t.add("obs", "ok")
 	e := es[0].Response
-	t.harResponse("e", e)
+	horder := headerOrder(e.Headers)
+	t.harResponse("e", e, horder)
 	if e.Content != nil {
 		t.b64(string(e.Content.Text))
 	}
@@ -684,7 +726,7 @@ func runRes(m *msgIn) (out []string) {
 		return t.finish()
 	}
 	t.add("rt", "ok")
-	t.harResponse("r", back.Log.Entries[0].Response)
+	t.harResponse("r", back.Log.Entries[0].Response, horder)
 	js2, err := json.Marshal(&back)
 	var back2 har.HAR
 	same := err == nil && json.Unmarshal(js2, &back2) == nil && back2.Log != nil && len(back2.Log.Entries) == 1
@@ -698,6 +740,9 @@ func runRes(m *msgIn) (out []string) {
 }
 
 func runCase(in []string) []string {
+	if len(in) > 0 && (in[0] == "PD" || in[0] == "CT" || in[0] == "PJ" || in[0] == "CJ") {
+		return runDirect(in)
+	}
 	m, err := parseIn(in)
 	if err != nil {
 		return []string{"BADIN"}
@@ -717,6 +762,12 @@ func main() {
 		cfg.Emit(hx.Case{Name: c.Name, In: c.In, Out: runCase(c.In)})
 	}
 	if replayOnly {
+		// bin/vcheck loads the statistics of every harness run into the evidence,
+		// including the shrinker's replays: keep the main run's histogram there.
+		if cfg.Stats != "" {
+			os.Remove(cfg.Stats)
+			cfg.Stats = ""
+		}
 		return
 	}
 	generate(cfg)
